@@ -800,6 +800,11 @@ func replay() {
 			}
 		}
 		imageCase(l, rc, kind)
+	case "charset-name":
+		var nc nameCase
+		if mc.LoadReplay(chk.ReplayFile(), &nc) == nil {
+			nameOne(l, nc)
+		}
 	case "small":
 		smallCase(l, text, rc.opt())
 	default:
@@ -871,6 +876,7 @@ func main() {
 	runSmall()
 	runLookalikes()
 	runRepeatedSpecials()
+	runCharsetNames()
 	runPackedGroups()
 	runHintedCapacity()
 	chk.Sample("small", rcase{Sub: "small", Text: "漢\x00", Level: 3, Mask: 5, Version: 1, Charset: "Shift_JIS"})
